@@ -49,6 +49,11 @@ def mutants_of(src):
                 new = code[:m.start()] + m.expand(rep) + code[m.end():]
                 if new != code:
                     out.append((i, line, new + line[len(code):], "op %s -> %s" % (pat, rep)))
+        # force a condition
+        mc = re.match(r"^(\s*(?:\} else )?if )(.+)( \{\s*)$", code)
+        if mc and ";" not in mc.group(2):
+            out.append((i, line, mc.group(1) + "false && (" + mc.group(2) + ")" + mc.group(3), "condition forced false"))
+            out.append((i, line, mc.group(1) + "true || (" + mc.group(2) + ")" + mc.group(3), "condition forced true"))
         # statement deletion: simple call / assignment / inc-dec statements
         if re.match(r"^\s*[\w\.\[\]\*&]+(\([^{}]*\)|\s*(=|\+=|-=|\+\+|--)[^{}]*)$", code) and not s.startswith(("return", "go ", "defer", "case", "default", "var ", "type ", "func ")):
             if ":=" not in code:
